@@ -606,6 +606,21 @@ def plan(tier, seed):
                     if vary == 'both' or int(np.prod(shape)) > 1:
                         batch.append({'shape': shape, 'L': L, 'off': 0, 'amb': amb, 'lam': 0.55, 'absorbing': True, 'generic': True, 'vary': vary, 'aois': [0, 45]})
     aoitxt = '{0,10,45,60,80,89 deg, Brewster angle of the first interface}'
+    # long stacks: periodic designs (quarter-wave mirrors, (HL)^N H, three-material periods), the same with one detuned layer in the
+    # middle (a cavity), and aperiodic ones, at EVERY layer count 4..13 and around 16 / 32 / 41 (pairwise or blocked products, periodic
+    # fast paths and rescaling of the running product all depend on the count and on the periodicity)
+    H, Lo, M = 2.3, 1.38, 1.5
+    counts = list(range(4, 14)) + [16, 17, 31, 32, 33, 41, 42] if quick else list(range(4, 44))
+    longs = []
+    for n in counts:
+        pats = {'HL': [[H, 'qw'] if k % 2 == 0 else [Lo, 'qw'] for k in range(n)],
+                'LH': [[Lo, 'qw'] if k % 2 == 0 else [H, 'qw'] for k in range(n)],
+                'HLM': [[[H, 'qw'], [Lo, 'hw'], [M, 'f']][k % 3] for k in range(n)],
+                'cavity': [([H, 'qw'] if k % 2 == 0 else [Lo, 'qw']) if k != n // 2 else [Lo, 'f'] for k in range(n)],
+                'aperiodic': [[N_IDX[(5 * k + k * k // 3 + 1) % 4], T_KIND[(3 * k + k // 2 + 1) % 4]] for k in range(n)]}
+        for pname, layers in pats.items():
+            for amb in AMBS:
+                longs.append({'layers': layers, 'sub': 1.5, 'amb': amb, 'lam': 0.55, 'pattern': pname})
     lshapes = [[129], [257], [4097], [6147], [70, 70], [100, 100], [3, 1400], [65537]] + ([] if quick else [[131073], [300, 301], [2, 3, 11000], [1030, 1031]])
     large = [{'shape': sh, 'L': L, 'off': off, 'amb': amb, 'lam': 0.55, 'absorbing': ab, 'generic': False, 'period': 7, 'aois': [0, 45]}
              for sh in lshapes for (L, off, amb, ab) in ((2, 1, 1.0, False), (1, 3, 1.33, True))]
@@ -630,6 +645,9 @@ def plan(tier, seed):
                   'array-valued index/thickness of shapes {(2,),(3,),(2,3),(2,1,2),(1,),(1,1)' + ('' if quick else ',(4,1)') + f'}} x 0..{3 if quick else 4} layers x 8+ alphabet offsets (every batch element a different stack, '
                   'different along the batch and across layers, so batch size == entry count ("square") and != are both present) x real/complex x what varies along the batch {index and thickness, thickness only (fixed materials), index only (fixed thicknesses)} x list-of-pairs and ndarray input forms x aoi x pol: '
                   'batched r, t entry-wise equal to the per-element loop; plus one seeded generic representative per shape/length'),
+        ScopeUnit('long_stacks', longs, run_stack,
+                  f'long stacks: layer counts {counts} x designs {{(HL)^N.., (LH)^N.., (H L M)^N.., quarter-wave mirror with one detuned layer in the middle, aperiodic}} over H=2.3, L=1.38, M=1.5 '
+                  f'(odd counts end in the unpaired layer) x ambient {{1,1.33}} on a 1.5 substrate, each at aoi in {aoitxt} x pol: r and t against the independent reference (tolerance from its own conditioning) and R+T=1'),
         ScopeUnit('batch_large', large, run_batch_large,
                   f'size-threshold alphabet of batch shapes {lshapes} (element counts just above 2^7..2^16' + ('' if quick else ' / 2^17 / 2^20') + ' and not a multiple of a power of two) x {2 lossless layers in air, 1 absorbing layer in water} '
                   'x aoi {0,45} x pol: the batch is a period-7 tiling of 7 different stacks along the flattened batch, EVERY element of the batched r, t is compared with the scalar call '
